@@ -207,3 +207,44 @@ func (c *Ctx) bvIntToF(x *Term, w int, signed bool) *Term {
 	sign := c.Ite(neg, c.Const(64, uint64(1)<<uint(w-1)), c.Const(64, 0))
 	return c.Extract(c.Bin(OpBvOr, r, sign), w-1, 0)
 }
+
+// FFixedScaled gives the digits of a float64 printed with a fixed number of
+// decimals (strconv 'f' format, precision p, scale = 10^p <= 1000):
+// q = |x| * scale rounded half-to-even on the exact binary value, ok = x is
+// finite and q < 2^62, neg = sign bit (Go prints "-0.00" for negative values
+// that round to zero). The text is then q/scale "." q%scale.
+func (c *Ctx) FFixedScaled(x *Term, scale uint64) (ok, neg, q *Term) {
+	if x.W == 32 {
+		x = c.bvF32to64(x)
+	}
+	if scale > 1000 {
+		panic("FFixedScaled: scale too large")
+	}
+	p := c.fpSplit(x)
+	e := c.Zext(p.exp, 64)
+	neg = c.Eq(p.sign, c.Const(1, 1))
+	sub := c.isZero(p.exp)
+	// value = sig * 2^(E-1075) with E = max(e,1)
+	sig := c.Ite(sub, c.Zext(p.man, 64), c.Bin(OpBvOr, c.Zext(p.man, 64), c.Const(64, 1<<52)))
+	E := c.Ite(sub, c.Const(64, 1), e)
+	P := c.Bin(OpMul, sig, c.Const(64, scale)) // < 2^53 * 2^10
+	finite := c.Not(c.Eq(p.exp, c.Const(11, 0x7ff)))
+	// right shift by sh = 1075-E (1..1074) with round half to even
+	right := c.Cmp(OpUlt, E, c.Const(64, 1075))
+	sh := c.Bin(OpSub, c.Const(64, 1075), E)
+	big := c.Cmp(OpUle, c.Const(64, 64), sh) // sh >= 64: P < 2^63 <= half, rounds to 0
+	q0 := c.Bin(OpLShr, P, sh)
+	one := c.Const(64, 1)
+	low := c.Bin(OpBvAnd, P, c.Bin(OpSub, c.Bin(OpShl, one, sh), one))
+	half := c.Bin(OpShl, one, c.Bin(OpSub, sh, one))
+	odd := c.Eq(c.Bin(OpBvAnd, q0, one), one)
+	up := c.Or(c.Cmp(OpUlt, half, low), c.And(c.Eq(low, half), odd))
+	qr := c.Ite(big, c.Const(64, 0), c.Ite(up, c.Bin(OpAdd, q0, one), q0))
+	// left shift by E-1075 (0..): fits while the result stays below 2^62
+	lsh := c.Bin(OpSub, E, c.Const(64, 1075))
+	ql := c.Bin(OpShl, P, lsh)
+	fitsL := c.And(c.Cmp(OpUlt, lsh, c.Const(64, 62)), c.Eq(c.Bin(OpLShr, ql, lsh), P))
+	q = c.Ite(right, qr, ql)
+	ok = c.AndN(finite, c.Or(right, fitsL), c.Cmp(OpUlt, q, c.Const(64, 1<<62)))
+	return
+}
